@@ -10,7 +10,7 @@
           | (switch e ARM+)          ARM ::= ((lit Z) e) | ((bind x) e) | ((wild) e)
      A  ::= e | (splat e)            T ::= 0 | 1 (trailing semicolon)
      CL ::= (it x e) | (item i x e) | (let x e) | (guard e)
-     FB ::= (do e) | (yield e) | (yieldkv k v)
+     FB ::= (do e) | (yield e) | (yieldkv k v) | (yieldinto e R)     R ::= first | last | count | sum | len | (fn e)
      P  ::= x | (def x e) | (splat x)
      OP ::= add sub mul lt eq len append not print *)
 open Model
@@ -111,7 +111,12 @@ and forbody_of = function
   | L [A "do"; e] -> FDo (expr_of e)
   | L [A "yield"; e] -> FYield (expr_of e)
   | L [A "yieldkv"; k; v] -> FYieldKV (expr_of k, expr_of v)
+  | L [A "yieldinto"; e; r] -> FYieldInto (expr_of e, reducer_of r)
   | _ -> failwith "bad for body"
+and reducer_of = function
+  | A "first" -> RFirst | A "last" -> RLast | A "count" -> RCount | A "sum" -> RSum | A "len" -> RLen
+  | L [A "fn"; e] -> RFun (expr_of e)
+  | _ -> failwith "bad reducer"
 and param_of = function
   | A v -> ((KPlain, cs v), None)
   | L [A "def"; A v; e] -> ((KPlain, cs v), Some (expr_of e))
